@@ -470,7 +470,7 @@ func c03Loc(r *Run, l gts.Location, L, i, k int) {
 func residueLeaves(l gts.Location) []gts.Location {
 	var out []gts.Location
 	for _, u := range leaves(l) {
-		if u.Len() > 0 {
+		if leafLen(u) > 0 {
 			out = append(out, u)
 		}
 	}
@@ -880,7 +880,7 @@ func c04Loc(r *Run, l gts.Location, L, n int) {
 	guard := fmt.Sprintf("k2.expand %s 0 %d ; k2.normalize %s %d", ls, m, encLoc(mid), L)
 	fullLen := false
 	for _, u := range leaves(l) {
-		if u.Len() == L {
+		if leafLen(u) == L {
 			fullLen = true
 		}
 	}
@@ -1696,7 +1696,7 @@ func c04Feats(r *Run, line string, before, after gts.Sequence, steps []int, L in
 		// the only part with residues is the whole range 1..L (zero-length sites may hang on)
 		nres, whole := 0, false
 		for _, u := range leaves(f.Loc) {
-			if u.Len() > 0 {
+			if leafLen(u) > 0 {
 				nres++
 				if rg, ok := u.(gts.Ranged); ok && rg.Start == 0 && rg.End == L {
 					whole = true
